@@ -160,6 +160,17 @@ theorem sys_ok_time {s s' : State} (wf : WF s) (ok : IoOk s.io) (hd : SysProofs.
   dev_keeps wf ok hd hk hb h
 
 open GbVerif.SysProofs in
+/-- **the transfer touches no other memory**, for the real catch-up: whatever amount of time passes, with or without a
+transfer running, the cartridge registers, ROM, video RAM, cartridge RAM, work RAM and high RAM are exactly as before;
+OAM changes only while a transfer is active (the I/O block and the DMA bookkeeping are what time is *for*) -/
+theorem dev_touches_only_oam_io {s s' : State} (wf : WF s) (hd : SysProofs.DmaOk s) {k : Nat} (h : Sys.dev s k = .ok s') :
+    s'.cart = s.cart ∧ s'.rom = s.rom ∧ s'.vram = s.vram ∧ s'.cram = s.cram ∧ s'.wram = s.wram ∧ s'.hram = s.hram ∧
+    (s.dma = none → s'.oam = s.oam) := by
+  obtain ⟨e, er, eo⟩ := dev_rest wf hd h
+  simp only [rest, Prod.mk.injEq] at e
+  exact ⟨e.1, er, e.2.2.1, e.2.2.2.1, e.2.2.2.2.1, e.2.2.2.2.2.1, eo⟩
+
+open GbVerif.SysProofs in
 /-- **whole-machine batch independence**: `a + b` clocks in one catch-up = `a` clocks, then `b` clocks, for every DMA
 source page (the I/O page included), every progress, with or without a transfer running -/
 theorem dev_batch_add {s : State} (wf : WF s) (ok : IoOk s.io) (hd : SysProofs.DmaOk s) (a b : Nat)
